@@ -314,6 +314,79 @@ fn differential(ctx: &Ctx, bin: &Path, label: &'static str, t: &mut Tally, sampl
             t.add("C17:c-differs-from-rust:open", format!("{}: clockbound_open says '{cl}', the Rust client says '{r1}'", fc.label), json!({"check": "C17", "part": "open", "library": label, "case": fc.label, "c": cl, "rust": r1}));
         }
     }
+    // (c) sequences: both libraries keep their context open while the segment changes underneath them.
+    // Every sequence of up to 3 segment mutations (a complete publication, an update left in flight, a
+    // wipe as the daemon does on a corrupt file, nothing), with a now() on both after every step: the
+    // two libraries wrap the same reader and must carry the same reader state.
+    {
+        use std::os::unix::fs::FileExt;
+        let muts = ["publish", "begin-update", "wipe", "nothing"];
+        let depth = 3usize;
+        let total = muts.len().pow(depth as u32);
+        for code in 0..total {
+            let seq: Vec<&str> = (0..depth).map(|i| muts[(code / muts.len().pow(i as u32)) % muts.len()]).collect();
+            let path = dir.join("seq");
+            let _ = std::fs::remove_file(&path);
+            let mut w = ShmWriter::new(&path).map_err(|e| e.to_string())?;
+            let rec_k = |k: i64| Rec { as_of_s: 5000 + k, as_of_ns: 0, va_s: 6000 + k, va_ns: 0, bound: 1_000_000 * k, drift: 1000, reserved: 0, status: 1 };
+            let mut k = 1i64;
+            w.write(&rec_k(k).to_ceb());
+            let co = c.ask(&format!("P 1 {}", path.display()))?;
+            let mut rust = ClockBoundClient::new_with_path(path.to_str().unwrap()).map_err(|e| format!("{:?}", e.kind))?;
+            if co != "open ok" {
+                return Err(format!("sequence set-up: clockbound_open says {co}"));
+            }
+            let file = std::fs::OpenOptions::new().read(true).write(true).open(&path).map_err(|e| e.to_string())?;
+            for (step, m) in seq.iter().enumerate() {
+                match *m {
+                    "publish" => {
+                        k += 1;
+                        w.write(&rec_k(k).to_ceb());
+                    }
+                    "begin-update" => {
+                        // what a writer killed mid-update leaves: an odd generation and a half-written record
+                        let mut g = [0u8; 2];
+                        file.read_exact_at(&mut g, 14).map_err(|e| e.to_string())?;
+                        let gen = u16::from_ne_bytes(g);
+                        let odd = if gen % 2 == 0 { gen.wrapping_add(1) } else { gen };
+                        file.write_all_at(&odd.to_ne_bytes(), 14).map_err(|e| e.to_string())?;
+                        k += 1;
+                        let rb = crate::gridmc::segfiles::record_bytes(&rec_k(k));
+                        file.write_all_at(&rb[..24], 16).map_err(|e| e.to_string())?;
+                    }
+                    "wipe" => {
+                        file.write_all_at(&[0u8; 60], 12).map_err(|e| e.to_string())?;
+                        // the daemon then sets the version and publishes afresh; here it has not yet
+                    }
+                    _ => {}
+                }
+                n += 1;
+                let (real_ns, mono_ns) = (ts_ns(1_700_000_000, 5), ts_ns(5003 + k, 0));
+                vclock::arm(VClock { real_ns, mono_ns, auto_advance_ns: 0, fail_errno: 0, fail_clock: -1 });
+                let rr = rust.now();
+                vclock::disarm();
+                let r1 = match rr {
+                    Ok(nw) => {
+                        let e = nw.earliest.as_ref();
+                        let l = nw.latest.as_ref();
+                        let st = match status_num(nw.clock_status) { 0 => &abi["sta_unknown"], 1 => &abi["sta_sync"], _ => &abi["sta_free"] };
+                        format!("now ok {} {} {} {} {}", e.tv_sec, e.tv_nsec, l.tv_sec, l.tv_nsec, st)
+                    }
+                    Err(e) => render_err("now", client_err(e), &abi),
+                };
+                let cl = c.ask(&format!("Q 1 {} {} {} {}", real_ns.div_euclid(S), real_ns.rem_euclid(S), mono_ns.div_euclid(S), mono_ns.rem_euclid(S)))?;
+                *t.classes.entry(format!("sequence step: {}", r1.split(' ').take(2).collect::<Vec<_>>().join(" "))).or_insert(0) += 1;
+                t.nontrivial += 1;
+                if cl != r1 {
+                    t.add("C17:c-differs-from-rust:after-segment-change", format!("both libraries attached to a fresh segment, then the segment went through {:?}: at step {step} clockbound_now says '{cl}', the Rust client says '{r1}'", &seq[..=step]), json!({"check": "C17", "part": "sequence", "library": label, "mutations": seq, "step": step, "c": cl, "rust": r1}));
+                    break;
+                }
+            }
+            let _ = c.ask("R 1")?;
+            drop(w);
+            crate::seqmc::engine::close_leaked_fds(&path);
+        }
+    }
     drop(c.sin);
     let _ = c.child.wait();
     Ok((n, abi))
